@@ -403,6 +403,17 @@ class FlatGen:
         g = self.gen(allow_if=False)
         args = [g.real(self.r.randint(0, 1)) for _ in f["inputs"]]
         call = ("call", f["name"], args)
+        if len(f["outputs"]) == 1 and self.vectors and self.r.random() < 0.4:
+            # two calls of the same function, outside loops, whose arguments differ only in an array subscript
+            v = self.r.choice(self.vectors)
+            i, j = self.r.sample(range(1, self.vlen + 1), 2)
+            k = self.r.randrange(len(args))
+            for sub in (i, j):
+                a2 = list(args)
+                a2[k] = idx(v, sub)
+                self.m["eqs"].append(("eq", self.fresh_target(), ("call", f["name"], a2)))
+            self.tags.add("core:function-calls-differing-in-subscript")
+            return
         if len(f["outputs"]) == 1:
             e = ("eq", self.fresh_target(), ("bin", "+", call, g.real(0)) if self.r.random() < 0.3 else call)
             self.tags.add("core:function-call")
@@ -469,6 +480,13 @@ class FlatGen:
         if not mexpr.vars_in(inner):
             inner = ("bin", "+", inner, var(self.scalars[0]))
         dur = r.choice([var(self.params[0]), num(round(r.uniform(0.5, 5), 1)), ("bin", "*", num(2), var(self.params[0]))])
+        if r.random() < 0.3:
+            # a duration may also depend on a fixed input
+            if "ud" not in self.inputs:
+                self.decl("ud", prefixes=["input"], attrs={"fixed": ("bool", True)})
+                self.inputs.append("ud")
+            dur = r.choice([var("ud"), ("bin", "+", ("bin", "*", num(2), var("ud")), var(self.params[0]))])
+            self.tags.add("core:delay-duration-of-fixed-input")
         self.m["eqs"].append(("eq", self.fresh_target(), ("call", "delay", [inner, dur])))
         self.delays = getattr(self, "delays", []) + [(inner, dur)]
         self.tags.add("core:delay")
